@@ -66,7 +66,7 @@ Proof. intros fd. split; reflexivity. Qed.
 (* non-vacuity *)
 Example C08_int_example : exists e, parse_text (fun _ => 0) (print_int (IF true RHex) (-2147483648)) = Ok e
   /\ fold e = FLitI (-2147483648) dec_fmt /\ print_int (IF true RHex) (-2147483648) = "-0x80000000"%string.
-Proof. eexists. vm_compute. repeat split. Qed.
+Proof. exists (FUn "-" (FLitI (-2147483648) dec_fmt)). vm_compute. repeat split. Qed.
 
 Example C08_width_example :
   let d := DSeq (pp (fun _ => "0"%string) true (FCall (CNormal "f") [] [FLitI 10 dec_fmt; FLitI 20 dec_fmt])) in
